@@ -10,7 +10,9 @@
 (* ListenerQueueTrace.                                                     *)
 (***************************************************************************)
 EXTENDS StreamListener, Json, TLC
-CONSTANTS Depth, Rand
+CONSTANTS Depth, Rand,
+          NowNsec      \* nanosecond part of the (standing) clock of the run; the clock is a multiple of 2^32 ns, so a packet's
+                       \* avtp_timestamp is its distance to the presentation time: timestamps aim at the carry into the seconds
 VARIABLES n, hist, done
 gvars == <<svars, n, hist, done, mem, hb, out, step>>
 ASSUME Buf = {1}
@@ -20,13 +22,15 @@ RECURSIVE SetAll(_, _, _)
 SetAll(m, v, fs) == IF fs = << >> THEN m ELSE SetAll(Set2(m, v, fs[1][1], fs[1][2]), v, Tail(fs))
 Pay(len, salt) == Mat([i \in 1..len |-> ((i * 31 + salt * 17) % 251) + 1])
 
+TsFamily == << 0, 1, 1000000000 - NowNsec - 1, 1000000000 - NowNsec, 1000000000 - NowNsec + 1, 999999999 >>
+TsOf(salt) == TsFamily[(salt % 6) + 1]
 AafPkt(seq, salt) ==
   SetAll(SetSem(InitSem(Fill(24, 0), 0, "Pcm"), 0, "Pcm", "stream_id", StreamIdL), "Pcm",
          << <<"tv", 1>>, <<"sp", 0>>, <<"sequence_num", seq>>, <<"format", 4>>, <<"nsr", 5>>, <<"channels_per_frame", 2>>,
-            <<"bit_depth", 16>>, <<"stream_data_length", 4>> >>) \o Pay(4, salt)
+            <<"bit_depth", 16>>, <<"stream_data_length", 4>>, <<"avtp_timestamp", TsOf(salt)>> >>) \o Pay(4, salt)
 CvfPkt(seq, len, salt) ==
   SetAll(SetSem(InitSem(Fill(24, 0), 0, "Cvf"), 0, "Cvf", "stream_id", StreamIdL), "Cvf",
-         << <<"tv", 1>>, <<"format_subtype", 1>>, <<"sequence_num", seq>>, <<"stream_data_length", len + 4>>, <<"ptv", 1>> >>)
+         << <<"tv", 1>>, <<"format_subtype", 1>>, <<"sequence_num", seq>>, <<"stream_data_length", len + 4>>, <<"ptv", 1>>, <<"avtp_timestamp", TsOf(salt)>> >>)
   \o <<0, 0, 0, 9>> \o Pay(len, salt)
 
 \* one deviation from a well-formed packet
